@@ -19,7 +19,16 @@
 //     buildIncludes skips unused includes).  Every other rule is enforced by
 //     the front end on the whole include graph, with and without -r.
 //   - a valid program that thriftgo rejects is not a C04 matter: counted
-//     (status:rejected_valid) and skipped.
+//     (status:rejected_valid, or rejected_valid_with_go_trace when the message
+//     of the Go backend carries a stack) and skipped.
+//   - S5 (main.handlePanic prints "Recovered from panic" and exits 0): the
+//     clause is judged on both runs (exit 0 with that text, or exit 0 without
+//     the expected files, is a violation).  Since the fastgo repair 86c07e2 no
+//     generated input reaches a panic in main, so there is no listed finding
+//     and no exclusion for it.
+//   - things thriftgo does not claim to reject (integer constants out of the
+//     range of their type, `const bool b = 5`, a string for an enum, unknown
+//     option NAMES) are not generated.
 //   - expected output of the valid run is checked by base name only
 //     (<base>.go per generated IDL file, k-<base>.go in addition for fastgo);
 //     directory layout and renaming on collisions belong to C11/C12.
